@@ -3,3 +3,4 @@ import Thanos.Driver.Proxy
 import Thanos.Props.C05
 import Thanos.Props.C17
 import Thanos.Props.C03
+import Thanos.Props.C06
